@@ -10,7 +10,7 @@ from spec import api, proto, wire
 from . import summaries
 from .c04_state import node_view_same
 from .gw_logic import ota_unchanged
-from .inv import i_children, i_desired, i_nodes, i_ota, i_values, inv
+from .inv import i_children, i_desired, i_nodes, i_ota, i_queue, i_values, inv
 from .loops_sleep import LOOPS
 from .state import VERSIONS, make_gateway
 
@@ -86,6 +86,7 @@ class SetChildValue:
         "inv.values": lambda old, self, sensor_id, child_id, value_type, value, result, ack=0: i_values(self),
         # accepted => deliverable: the recorded desired value is a valid set payload under the gateway's version
         "inv.desired": lambda old, self, sensor_id, child_id, value_type, value, result, ack=0: i_desired(self),
+        "inv.queue": lambda old, self, sensor_id, child_id, value_type, value, result, ack=0: i_queue(self),
         "view-untouched": lambda old, self, sensor_id, child_id, value_type, value, result, ack=0: view_same(self, old.self)
         and ota_unchanged(self, old.self),
         # unknown node or child: nothing but (>= 2.0) one presentation request
